@@ -1226,6 +1226,42 @@ Proof.
   apply feed_schedule_independent; try assumption; try apply good_init; apply feed_never_out_of_fuel; try assumption; apply good4_init.
 Qed.
 
+(* ------------------------------------------------------------------ C05 at the level of the stream machine: prefixes and resumption *)
+Definition is_failure (r : rend) : Prop := match r with RErr _ | RPanic _ | RFuel => True | _ => False end.
+
+Lemma feed_stops_at_failure s p q : is_failure (snd (feed s [p])) -> feed s [p; q] = feed s [p].
+Proof.
+  unfold StreamRun.feed. cbn [StreamRun.feed_go].
+  destruct (feed_piece (5 * length p + 8) s p []) as [[s1 tr1] [r1|]]; [reflexivity|].
+  cbn. intro H. contradiction.
+Qed.
+
+(* a stream that decodes without an error (to its IEND, or as far as it goes) does not report an error on any of its prefixes:
+   the run over the prefix ends for lack of input (or at IEND), ready to go on *)
+Theorem prefix_never_fails : zinf_contract ->
+  forall o limit p q, bytes_ok p -> bytes_ok q ->
+  ~ is_failure (snd (feed (init_state o limit) [p ++ q])) -> ~ is_failure (snd (feed (init_state o limit) [p])).
+Proof.
+  intros HC o limit p q Hp Hq Hw Hf.
+  pose proof (feed_stops_at_failure (init_state o limit) p q Hf) as E.
+  assert (I : feed_obs (feed (init_state o limit) [p; q]) = feed_obs (feed (init_state o limit) [p ++ q])).
+  { apply (decoding_is_delivery_independent HC); [repeat constructor; assumption | repeat constructor; apply bytes_ok_app; assumption |].
+    cbn [concat]. rewrite !app_nil_r. reflexivity. }
+  rewrite E in I.
+  destruct (feed (init_state o limit) [p]) as [[s1 t1] r1]. destruct (feed (init_state o limit) [p ++ q]) as [[s2 t2] r2].
+  cbn [snd] in *. unfold feed_obs in I. injection I as _ I.
+  destruct r1; cbn in Hf; try contradiction; destruct r2; cbn in Hw, I; try discriminate I; try (apply Hw; exact Logic.I).
+Qed.
+
+(* resuming completes identically: however the input grows (any list of increments), the outcome is that of decoding the complete input in one go *)
+Theorem resuming_completes_identically : zinf_contract ->
+  forall o limit increments, Forall bytes_ok increments ->
+  feed_obs (feed (init_state o limit) increments) = feed_obs (feed (init_state o limit) [concat increments]).
+Proof.
+  intros HC o limit incs Hf. apply (decoding_is_delivery_independent HC); [exact Hf | repeat constructor; apply bytes_ok_concat; exact Hf |].
+  cbn [concat]. rewrite app_nil_r. reflexivity.
+Qed.
+
 End WithInflate.
 
 (* the contract is satisfiable by an "inflater" that shows all three outcomes: it copies bytes up to a 0 (end of stream; what follows is
